@@ -14,8 +14,11 @@ type vfSuiteTC struct {
 	Stream  int32  `json:"stream"`
 	Service string `json:"service"`
 	Method  string `json:"method"`
-	RawReq  bool   `json:"rawRequest"`
-	RawResp bool   `json:"rawResponse"`
+	// EmptyKeys: service and method are spelled out in the suite file but empty (service: ""), which is
+	// what a templated file gives; "no service and method" all the same.
+	EmptyKeys bool `json:"emptyKeys,omitempty"`
+	RawReq    bool `json:"rawRequest"`
+	RawResp   bool `json:"rawResponse"`
 	// Preset: the suite file already fills request fields that the runner owns (the proto docs say they
 	// "must not be present", so rejecting such a suite is fine; if it is expanded the runner's values must win).
 	// bit 0 server_tls_cert, bit 1 client_tls_creds, bit 2 http_version/protocol/codec/compression, bit 3 host/port
@@ -50,6 +53,9 @@ func vfSuiteProto(s vfSuite) *conformancev1.TestSuite {
 		}
 		if tc.Method != "" {
 			req.Method = proto.String(tc.Method)
+		}
+		if tc.EmptyKeys && tc.Service == "" && tc.Method == "" {
+			req.Service, req.Method = proto.String(""), proto.String("")
 		}
 		if tc.Preset&1 != 0 {
 			req.ServerTlsCert = []byte("STALE-CERT")
@@ -138,6 +144,8 @@ func vfGenSuites(t *rapid.T, mode int32) []vfSuite {
 			tc := vfSuiteTC{Name: tnames[j], Stream: int32(rapid.IntRange(1, 5).Draw(t, "stream"))}
 			if rapid.IntRange(0, 4).Draw(t, "explicit") == 0 {
 				tc.Service, tc.Method = "connectrpc.conformance.v1.ConformanceService", rapid.SampledFrom([]string{"IdempotentUnary", "Unimplemented", "Unary"}).Draw(t, "method")
+			} else if rapid.IntRange(0, 5).Draw(t, "emptyKeys") == 0 {
+				tc.EmptyKeys = true
 			}
 			if rapid.IntRange(0, 11).Draw(t, "presetRunnerFields") == 0 {
 				tc.Preset = rapid.IntRange(1, 15).Draw(t, "preset")
